@@ -204,6 +204,13 @@ impl Write for ChunkSink {
         self.calls.push((buf.to_vec(), n as i64));
         Ok(n)
     }
+    // a gathered write is ONE request for the concatenation of its slices and may be accepted partially like any other (the default implementation would only
+    // ever offer the first slice, which hides writers that mistake a partly accepted gather for a complete one)
+    fn write_vectored(&mut self, bufs: &[std::io::IoSlice<'_>]) -> std::io::Result<usize> {
+        let mut all: Vec<u8> = Vec::new();
+        for b in bufs { all.extend_from_slice(b); }
+        self.write(&all)
+    }
     fn flush(&mut self) -> std::io::Result<()> { Ok(()) }
 }
 
